@@ -23,6 +23,60 @@ def build_exe(tag):
     return build.build_harness(out, "asan", "h_addr", "h_addr.c", ["modules/iauth_misc.c"], libs=())
 
 
+def build_fuzzer(tag):
+    """libFuzzer build (clang 14, ASan+UBSan) of the same harness: check_string() on coverage-guided inputs."""
+    out = build.fresh_dir(tag)
+    return build.build_harness(out, "fuzz", "f_pton", "h_addr.c", ["modules/iauth_misc.c"], libs=(), extra=["-DH_ADDR_FUZZ"],
+                               link_extra=["-fsanitize=fuzzer"])
+
+
+FUZZ_SEEDS = ["10.1.*", "2001:db8::/32", "1.2.3.4/27", "*", "::ffff:1.2.3.4", "1:2:3:4:5:6:7:8", "a::b:*", "::1/128", "0::", "1.2.3.4",
+              "ffff:ffff:ffff:ffff:ffff:ffff:255.255.255.255/128", "::ffff:10.1.2.0/24", "a:2:3:4:c5:6:7::", "0:0:0:0:0:0:1.2.3.4", "127.*"]
+
+
+def fuzz_job(a):
+    """One libFuzzer process with a fixed number of runs; returns (argv, rc, stdout tail, stderr tail, hang, crash events, sanitizer, extra)."""
+    import os, shutil, tempfile, daemon
+    exe, seed, runs, maxlen = a
+    d = tempfile.mkdtemp(prefix="fz-", dir=daemon.SCRATCH_ROOT)
+    try:
+        os.makedirs(os.path.join(d, "corpus"))
+        for k, s in enumerate(FUZZ_SEEDS):
+            with open(os.path.join(d, "corpus", "s%d" % k), "w") as f:
+                f.write(s)
+        argv = ["-max_len=%d" % maxlen, "-runs=%d" % runs, "-seed=%d" % seed, "-artifact_prefix=" + d + "/", "-print_final_stats=1", "corpus"]
+        r = hrun.run([exe] + argv, timeout=3600, leaks=True, cwd=d)
+        art = [f for f in os.listdir(d) if f.startswith("crash-") or f.startswith("timeout-") or f.startswith("oom-") or f.startswith("leak-")]
+        inp = open(os.path.join(d, art[0]), "rb").read().decode("latin-1") if art else None
+        m = re.search(r"stat::number_of_executed_units:\s*(\d+)", r.err)
+        cov = re.findall(r"cov: (\d+) ft: (\d+) corp: (\d+)", r.err)
+        return {"argv": ["f_pton"] + argv[:3], "rc": r.rc, "out": r.out[-3000:], "err": r.err[-2500:], "hang": r.hang, "crash": r.crash_events(),
+                "executed": int(m.group(1)) if m else 0, "cov": [int(x) for x in cov[-1]] if cov else [0, 0, 0], "input": inp}
+    finally:
+        shutil.rmtree(d, ignore_errors=True)
+
+
+def fuzz_digest(chk, prop, res, prefix_filter=None):
+    for r in res:
+        chk.add_case(" ".join(r["argv"]), r["executed"] > 0)
+        chk.count("fuzzer_executions", r["executed"])
+        chk.observed["fuzzer_coverage_edges"] = max(chk.observed.get("fuzzer_coverage_edges", 0), r["cov"][0])
+        chk.observed["fuzzer_corpus_max"] = max(chk.observed.get("fuzzer_corpus_max", 0), r["cov"][2])
+        viols = re.findall(r"^VIOL (\S+) (.*)$", r["out"], re.M)
+        for rule, detail in viols[:3]:
+            if prefix_filter and not rule.startswith(prefix_filter):
+                continue
+            chk.violation(Violation(prop, rule, rule, "libFuzzer input %r: %s" % (r["input"], detail), {"fuzz_input": r["input"], "detail": detail}))
+        if not viols:
+            for kind, func in r["crash"]:
+                chk.violation(Violation(prop, "sanitizer", "%s|%s" % (kind, func), "libFuzzer input %r: %s in %s\n%s" % (r["input"], kind, func, r["err"][-1200:]),
+                                        {"fuzz_input": r["input"]}))
+            if r["rc"] != 0 and not r["crash"]:
+                chk.inconc("fuzzer exit %d without a report: %s" % (r["rc"], r["err"][-300:]))
+        if r["hang"]:
+            chk.inconc("fuzzer timed out")
+
+
 def digest(chk, prop, res, prefix_filter=None):
     """Fold harness results into the check; returns total stats."""
     tot = {}
